@@ -2,9 +2,10 @@ SPECIFICATION Spec
 CONSTANTS
   Procs <- P3
   Dev <- DevNever
-  Scenarios <- ScnAll
+  Scenarios <- ScnAllQ
 INVARIANT NoFailure
 INVARIANT SerialResults
 INVARIANT StoreUnchanged
 INVARIANT NoDeadlock
+INVARIANT WalAtWork
 CHECK_DEADLOCK FALSE
